@@ -351,6 +351,9 @@ class CSSPageRule(cssrule.CSSRuleRules):
                 self._selectorText = newselseq
                 self._specificity = specificity
                 self.style = newStyle
+                # the replaced rules are not part of this rule anymore
+                for r in self._cssRules:
+                    r._parentRule = None
                 self.cssRules = cssutils.css.CSSRuleList()
                 for r in cssRules:
                     self.cssRules.append(r)
